@@ -98,6 +98,11 @@ func e6Sources(c *Ctx, nfiles int) []srcFile {
 	}
 	files = append(files, srcFile{pkg: "p", name: "shared.go", text: e6SharedPlain})
 	files = append(files, srcFile{pkg: "p", name: "uses_shared.go", text: e6UsesShared})
+	// files that use the API but declare NO generator (they only consume iterators), sorting before and after
+	// all other files of the package: what the tool keeps per file must not leak from the files visited before
+	for _, pre := range []string{"aa", "zz"} {
+		files = append(files, srcFile{pkg: "p", name: pre + "_consumer_only.go", text: strings.ReplaceAll(e6ConsumerOnly, "§", strings.ToUpper(pre))})
+	}
 	// the repository's own corpus (realistic sources)
 	gold := filepath.Join(work.Repo(), "rewriter", "test", "src")
 	ents, _ := os.ReadDir(gold)
@@ -111,6 +116,31 @@ func e6Sources(c *Ctx, nfiles int) []srcFile {
 	}
 	return files
 }
+
+const e6ConsumerOnly = `// Package p: a file that only CONSUMES iterators.
+package p
+
+import . "github.com/goghcrow/go-co"
+
+// §Sum drains an iterator.
+func §Sum(it Iter[int]) (n int) {
+	for v := range it {
+		n += v
+	}
+	return
+}
+
+// §Holder keeps an iterator in a field.
+type §Holder struct{ It Iter[string] }
+
+// Len pulls by hand.
+func (h §Holder) Len() (n int) {
+	for h.It.MoveNext() {
+		n += len(h.It.Current())
+	}
+	return
+}
+`
 
 // declarations in a file the compiler does not process (it does not use the API) ...
 const e6SharedPlain = "package p\n\n// package-level state declared in a file the compiler does not process\nvar SharedG int\n\nconst SharedC = 7\n\nconst SharedS = \"s\"\n\ntype SharedKind int\n\nconst SharedK SharedKind = 3\n\nfunc SharedCond() bool { return SharedG > 0 }\n"
